@@ -454,12 +454,20 @@ class TaskScenario(ScenarioData):
         if self.currentSlotIdx is None:
             if forward:
                 start_date = self.property.get("start", self.scenarioIdx)
+                # A start date inherited from an enclosing container is a lower bound, not a
+                # pin of this task: dependencies still apply on top of it
+                inherited_start = None
+                if start_date and not self.property.provided("start", self.scenarioIdx):
+                    inherited_start = start_date
+                    start_date = None
                 if start_date:
                     self.currentSlotIdx = self.project.dateToIdx(start_date)
                 else:
                     # ASAP mode, start at project start or after dependencies
                     # Check ALL dependencies (including inherited) to find the earliest start
                     earliest_start = self.project["start"]
+                    if inherited_start and inherited_start > earliest_start:
+                        earliest_start = inherited_start
                     for dep in self.getAllDependencies():
                         # dep can be a dict with 'task' key (new format with gap),
                         # or a Task object directly (old format)
@@ -719,7 +727,7 @@ class TaskScenario(ScenarioData):
         if is_milestone:
             # Milestone: set end = start (zero duration)
             if forward:
-                if start_date:
+                if start_date and self.property.provided("start", self.scenarioIdx):
                     self.property[("end", self.scenarioIdx)] = start_date
                 else:
                     # No start date - use current slot (set by dependency calculation)
